@@ -29,17 +29,63 @@ def c20a(ctx, tu):
     return coro
 
 
+def subst(t, sub):
+    """replace ['param', i, name] leaves of an expression tree by the caller's argument trees"""
+    if isinstance(t, list):
+        if len(t) >= 2 and t[0] == "param" and isinstance(t[1], int) and t[1] in sub:
+            return sub[t[1]]
+        return [subst(x, sub) for x in t]
+    if isinstance(t, dict):
+        return {k: subst(v, sub) for k, v in t.items()}
+    return t
+
+
+def subst_event(e, sub):
+    if not sub:
+        return e
+    return {k: (subst(v, sub) if k in ("x", "args", "recv", "init") else v) for k, v in e.items()}
+
+
+def handler_body(tu, entry):
+    """The function whose body is the handler coroutine: `call` itself, or - when `call` does nothing but return
+    the result of one library coroutine - that coroutine, with its parameters bound to the forwarded arguments.
+    Returns (fn, {param index: argument tree}) or (None, None)."""
+    sub = {}
+    fn = entry
+    for _ in range(3):
+        if fn.rec.get("coro"):
+            return fn, sub
+        rets = [e for b, e in fn.events() if e["e"] == "return"]
+        others = [e for b, e in fn.events() if e["e"] in ("throw", "assign", "incdec", "new", "delete")]
+        if len(rets) != 1 or others:
+            return None, None
+        x = rets[0].get("x")
+        while isinstance(x, list) and x and x[0] in ("ctor",) and len(x) > 3 and len(x[3]) == 1:
+            x = x[3][0]          # elidable copy of the returned coroutine object
+        if not (isinstance(x, list) and x and x[0] in ("call", "mcall")):
+            return None, None
+        callee = tu.fns.get(x[1])
+        if callee is None or not callee.has_body or not callee.is_lib:
+            return None, None
+        args = x[3] if x[0] == "call" else x[4]
+        sub = {i: subst(a, sub) for i, a in enumerate(args)}
+        fn = callee
+    return None, None
+
+
 def c20b(ctx, tu):
     """handler body = for each element of the yield list, in list order: one co_yield of that element's
     expression; then exactly one co_return of the return expression; no other explicit co_await."""
     n = 0
-    for fn in tu.find(HANDLER):
-        if not fn.rec.get("coro"):
-            ctx.ob("C20.b", HANDLER, False, pattern=fn.pat, unit=tu.name, inst=fn.q,
-                   detail="the coroutine return handler is not itself a coroutine: clause exceptions would surface at the call")
+    for entry in tu.find(HANDLER):
+        fn, sub = handler_body(tu, entry)
+        if fn is None:
+            ctx.ob("C20.b", HANDLER, False, pattern=entry.pat, unit=tu.name, inst=entry.q,
+                   detail="the coroutine return handler is neither a coroutine itself nor a plain forward to one: "
+                   "clause exceptions would surface at the call")
             continue
         n += 1
-        evs = [(b["id"], e) for b, e in fn.events()]
+        evs = [(b["id"], subst_event(e, sub)) for b, e in fn.events()]
         yields = [(bid, e) for bid, e in evs if e["e"] == "co_yield"]
         # the compiler-generated fall-through `co_return;` (void promises) sits at the function's own location
         rets = [(bid, e) for bid, e in evs if e["e"] == "co_return" and not e.get("implicit")
